@@ -279,6 +279,21 @@ class ALazy:
             elif self.kind == 'enumerate':
                 cb(AList([counter[0] + (self.fn or 0), v], 'tuple'))
                 counter[0] += 1
+            elif self.kind == 'zip1':
+                idx, others = self.fn
+                k = counter[0]
+                counter[0] += 1
+                row = []
+                for j, o in enumerate(others):
+                    if j == idx:
+                        row.append(v)
+                    elif o[0] == 'const':
+                        row.append(o[1])
+                    elif k < len(o[1]):
+                        row.append(o[1][k])
+                    else:
+                        return              # a finite partner has run out
+                cb(AList(row, 'tuple'))
             else:
                 cb(v)
         interp.for_each(self.src, node, step)
@@ -545,6 +560,40 @@ def enum_members(interp, cls):
             if isinstance(v, int) and not isinstance(v, bool):
                 out[name] = AEnumInt(v, name, cls.name)
     return out
+
+
+class AEnumMember:
+    """A member of a plain Enum class of the program: one object per member (compared by identity), with a name and a value."""
+    def __init__(self, cls, name, value):
+        self.cls, self.name, self.value = cls, name, value
+
+    def __repr__(self):
+        return f'<{self.cls.name}.{self.name}: {self.value!r}>'
+
+
+def plain_enum_members(interp, cls):
+    """name -> AEnumMember for an Enum class that is not an IntEnum; enum.auto() counts from 1 in definition order."""
+    cache = interp.f.__dict__.setdefault('_plain_enum_members', {})
+    if cls.qname not in cache:
+        out, last = {}, 0
+        for k in reversed(interp.p.mro(cls)):
+            for name, expr in k.attrs.items():
+                if name.startswith('_'):
+                    continue
+                if isinstance(expr, ast.Call) and unparse(expr.func).split('.')[-1] == 'auto' and not expr.args:
+                    v = last + 1
+                else:
+                    try:
+                        v = interp.f.eval(expr, {}, k.module)
+                    except Unfoldable:
+                        continue
+                    if isinstance(v, (FuncRef, ClassRef)):
+                        continue
+                if isinstance(v, int) and not isinstance(v, bool):
+                    last = v
+                out[name] = AEnumMember(cls, name, v)
+        cache[cls.qname] = out
+    return cache[cls.qname]
 
 
 class ANTClass:
@@ -1513,6 +1562,16 @@ class AbsInt:
             if al.has_var():
                 # a sequence with a run of unknown length in the middle: the fixed sub-patterns must be served by its concrete ends
                 if not stars:
+                    # a pattern of fixed length n: the sequence has at least its concrete items and the minimum of its runs
+                    n_ = len(pat.patterns)
+                    conc_ = [x for x in items if not isinstance(x, SeqVar)]
+                    if al.minlen() > n_ or len(conc_) > n_:
+                        return False
+                    if len(conc_) == n_:
+                        runs_ = [x for x in items if isinstance(x, SeqVar)]
+                        if any(r_.minlen >= 1 for r_ in runs_) or not self.decide(pat, 'length: every symbolic run is empty'):
+                            return False
+                        return all(self.match_pattern(p_, x, env, m) for p_, x in zip(pat.patterns, conc_))
                     raise Unsupported(f'sequence pattern without a star on a sequence of symbolic length at line {pat.lineno}')
                 k = stars[0]
                 nb, na = k, len(pat.patterns) - k - 1
@@ -2191,7 +2250,9 @@ class AbsInt:
                     if e.attr in mem:
                         return mem[e.attr]
                 elif ek == 'other' and not e.attr.startswith('_'):
-                    raise Unsupported(f'Enum class {base.info.name} whose members are not ints is not modelled')
+                    mem = plain_enum_members(self, base.info)
+                    if e.attr in mem:
+                        return mem[e.attr]
                 try:
                     return self.f.eval(v, {}, next((k for k in self.p.mro(base.info) if e.attr in k.attrs), base.info).module)
                 except Unfoldable:
@@ -2213,6 +2274,8 @@ class AbsInt:
             if base.name == 'typing' and e.attr == 'TYPE_CHECKING':
                 return False
             return ExtRef(f'{base.name}.{e.attr}')
+        if isinstance(base, AEnumMember) and e.attr in ('value', 'name'):
+            return base.value if e.attr == 'value' else base.name
         if isinstance(base, AEnumInt) and e.attr in ('value', 'name'):
             return int(base) if e.attr == 'value' else base.name
         if hasattr(base, 'absint_getattr'):
@@ -2241,13 +2304,15 @@ class AbsInt:
         owner = next((k for k in self.p.mro(cls) if name in k.attrs), cls)
         key = (owner.qname, name)
         if key not in cache:
-            if not (isinstance(expr, ast.Call) and isinstance(expr.func, ast.Name)):
+            if not (isinstance(expr, ast.Call) and isinstance(expr.func, (ast.Name, ast.Attribute))):
                 return None
             try:
                 fv = self.ev(expr.func, {}, owner.module)
             except (AbsRaise, Unsupported):
                 return None
-            if not isinstance(fv, ClassRef):
+            if isinstance(fv, ExtRef) and fv.name.split('.')[-1] in ('itemgetter', 'attrgetter', 'methodcaller', 'partial'):
+                pass                # a getter object made once in the class body
+            elif not isinstance(fv, ClassRef):
                 return None
             try:
                 cache[key] = self.ev(expr, {}, owner.module)
@@ -2591,6 +2656,12 @@ class AbsInt:
         return res
 
     def compare(self, op, a, b, node):
+        if isinstance(a, AEnumMember) or isinstance(b, AEnumMember):
+            # members of a plain Enum equal only themselves
+            if isinstance(op, (ast.Is, ast.Eq)):
+                return a is b if (isinstance(a, AEnumMember) and isinstance(b, AEnumMember)) or _is_concrete(a) or _is_concrete(b) or a is None or b is None else None
+            if isinstance(op, (ast.IsNot, ast.NotEq)):
+                return a is not b if (isinstance(a, AEnumMember) and isinstance(b, AEnumMember)) or _is_concrete(a) or _is_concrete(b) or a is None or b is None else None
         if isinstance(a, ATypeOf) or isinstance(b, ATypeOf):
             if isinstance(op, (ast.Is, ast.IsNot, ast.Eq, ast.NotEq)):
                 t, other = (a, b) if isinstance(a, ATypeOf) else (b, a)
@@ -3501,8 +3572,13 @@ class AbsInt:
                             return mem
                     raise AbsRaise('ValueError', node, implicit=True, msg=f'{args[0]!r} is not a valid {f.info.name}')
                 raise Unsupported(f'{f.info.name}(symbolic value)')
+            if ek == 'other' and len(args) == 1 and not kwargs and _is_concrete(args[0]):
+                for mem in plain_enum_members(self, f.info).values():
+                    if type(mem.value) is type(args[0]) and mem.value == args[0]:
+                        return mem
+                raise AbsRaise('ValueError', node, implicit=True, msg=f'{args[0]!r} is not a valid {f.info.name}')
             if ek == 'other':
-                raise Unsupported(f'Enum class {f.info.name} whose members are not ints is not modelled')
+                raise Unsupported(f'{f.info.name}(...) in this form is not modelled')
             obj = AObj(f.info, {}, name=f.info.name)
             o, init = self.p.lookup_method(f.info, '__init__')
             dcs = dataclass_spec(self, f.info) if init is None else None
@@ -3531,6 +3607,18 @@ class AbsInt:
             key = f.name
             if key in self.summaries:
                 return self.summaries[key](self, args, kwargs, node)
+            if key in ('collections.deque', 'deque') and len(args) <= 2 and set(kwargs) <= {'maxlen'}:
+                # the iterable is walked to its end (whatever it does on the way - deque(map(check, items), maxlen=0) is a way
+                # of running the checks), the last maxlen items are kept
+                items_ = self.iterate(args[0], node, keep_vars=True) if args else []
+                ml_ = kwargs.get('maxlen', args[1] if len(args) > 1 else None)
+                if isinstance(ml_, int) and not isinstance(ml_, bool):
+                    if any(isinstance(x, SeqVar) for x in items_) and ml_ != 0:
+                        raise Unsupported('bounded deque over a symbolic run')
+                    items_ = items_[len(items_) - ml_:] if ml_ else []
+                r_ = AList(items_, 'deque')
+                r_.maxlen = ml_
+                return r_
             if key in ('struct.pack', 'struct.unpack', 'struct.calcsize') and not kwargs and args and isinstance(args[0], str) \
                     and all(isinstance(a, (int, bytes)) and not isinstance(a, bool) for a in args[1:]):
                 # the struct module on constants (a table of byte patterns built at import): computed, as any constant expression
@@ -3669,6 +3757,10 @@ class AbsInt:
                 return ('attrgetter', args[0])
             if key in ('operator.itemgetter', 'itemgetter') and len(args) == 1:
                 return ('itemgetter', args[0])
+            if key in ('operator.attrgetter', 'attrgetter') and len(args) > 1 and all(isinstance(a, str) for a in args) and not kwargs:
+                return ('attrgetter', ('__several__',) + tuple(args))          # several names: the call gives a tuple, read in this order
+            if key in ('operator.itemgetter', 'itemgetter') and len(args) > 1 and not kwargs:
+                return ('itemgetter', ('__several__',) + tuple(args))
             if key in ('itertools.islice', 'islice') and len(args) == 2 and isinstance(args[1], int):
                 return AList(self.iterate(args[0], node, keep_vars=True)[:args[1]], 'list')
             # an un-modelled library call: it may raise.  Rules can ask for the k-th such call of a run to fail.
@@ -3787,6 +3879,19 @@ class AbsInt:
         if f is reversed and len(args) == 1 and isinstance(args[0], (AList, list, tuple)):
             return AList(list(reversed(self.iterate(args[0], node, keep_vars=True))), 'list')
         if f is zip:
+            forever = [i for i, a in enumerate(args) if isinstance(a, ALazy) and a.kind == 'repeat_forever']
+            lazy = [i for i, a in enumerate(args) if isinstance(a, (AGen, ALazy)) and i not in forever]
+            if len(lazy) == 1 and set(kwargs) <= {'strict'}:
+                # one lazy source next to constants that repeat for ever and finite sequences: pairs are made as the lazy source
+                # is driven (zip(repeat(port), port.iter_pending()) takes nothing before it is asked)
+                others = [None if i == lazy[0] else (('const', a.src) if i in forever else ('seq', self.iterate(a, node))) for i, a in enumerate(args)]
+                return ALazy('zip1', (lazy[0], others), args[lazy[0]])
+            if forever and len(forever) < len(args) and not lazy:
+                seqs = [self.iterate(a, node) for i, a in enumerate(args) if i not in forever]
+                nmin = min(len(q) for q in seqs)
+                it_ = iter(seqs)
+                cols = [[args[i].src] * nmin if i in forever else next(it_)[:nmin] for i in range(len(args))]
+                return [AList(list(t), 'tuple') for t in zip(*cols)]
             seqs = [self.iterate(a, node) for a in args]
             return [AList(list(t), 'tuple') for t in zip(*seqs)]
         if f is dict:
@@ -3842,6 +3947,10 @@ class AbsInt:
                 return a0
         if isinstance(f, tuple) and f and f[0] == 'lambda':
             return self.call_lambda(f, list(args))
+        if isinstance(f, tuple) and len(f) == 2 and f[0] in ('attrgetter', 'itemgetter') and len(args) == 1 \
+                and isinstance(f[1], tuple) and f[1][:1] == ('__several__',):
+            vals = [self.apply((f[0], k), [args[0]], {}, node) for k in f[1][1:]]
+            return tuple(vals) if all(_is_concrete(x) for x in vals) else AList(vals, 'tuple')
         if isinstance(f, tuple) and len(f) == 2 and f[0] == 'attrgetter' and len(args) == 1:
             obj = args[0]
             if isinstance(obj, AObj) and f[1] in obj.attrs:
@@ -4180,6 +4289,11 @@ class AbsInt:
             o, fn = self.p.lookup_method(base.cls, name)
             if fn is not None and not any(isinstance(d, ast.Name) and d.id == 'property' for d in fn.node.decorator_list):
                 return self.call_function(fn, [base] + list(args), dict(kwargs), node)
+        if isinstance(base, AGen) and name in ('__enter__', '__exit__', 'send', 'throw', 'close', '__next__'):
+            # a generator (or generator-based context manager) driven by hand: it would have to be suspended at its yield between
+            # two calls, which this interpreter cannot do - refuse rather than pretend the call did nothing
+            raise Unsupported(f'{name}() called by hand on the generator object {base.info.qname} (line {getattr(node, "lineno", "?")}): '
+                              'suspended generators are not modelled')
         if isinstance(base, ALogger):
             if name in ('isEnabledFor',):
                 return False
